@@ -440,7 +440,7 @@ func cmdCheck(args []string) int {
 			}
 			path := filepath.Join(verifDir, "out", fmt.Sprintf("%s_%s_%s.json", *prop, o.def.Name, sanitize(v.Label)))
 			writeReplay(path, *prop, *tier, r.Cfg, v)
-			if r.Cfg.Sequential {
+			if r.Cfg.Sequential && !r.VMOnly[v.Label] {
 				// a sequential harness must fail on the real build too, otherwise the engine is wrong
 				ok, how := nativeConfirm(P, r.Cfg, path, v.Label)
 				if !ok {
